@@ -142,9 +142,11 @@ def _wiring(symbols, w, mode):
 
 def countmatrix_cases(ctx):
     dna_keys = [("ACGT", "ok"), ("ACGTN", "ok"), ("A", "ok"), ("TG", "ok"), ("N", "ok"), ("TGCA", "ok"),
-                ("", "raise"), ("ACGTX", "unknown"), ("ACGU", "unknown"), ("a", "unknown"), ("ACGT*", "unknown")]
+                ("", "raise"), ("ACGTX", "unknown"), ("ACGU", "unknown"), ("a", "unknown"), ("ACGT*", "unknown"),
+                # non-ASCII characters whose low byte is the ASCII code of a symbol (U+0141 -> 'A', U+0143 -> 'C', U+0154 -> 'T')
+                ("CGT\u0141", "unknown"), ("AGT\u0143", "unknown"), ("ACG\u0154", "unknown"), ("ACGT\u00e9", "unknown")]
     prot_keys = [(rm.PROTEIN, "ok"), (rm.PROTEIN[:20], "ok"), ("WY", "ok"), ("X", "ok"), ("ACGT", "ok"),
-                 ("ACB", "unknown"), ("Z", "unknown")]
+                 ("ACB", "unknown"), ("Z", "unknown"), ("CD\u0141", "unknown"), ("ACD\u0157", "unknown")]
     for protein, keys in ((False, dna_keys), (True, prot_keys)):
         for ks, expect in keys:
             for w in (0, 1, 2, 7):
@@ -385,8 +387,9 @@ def scoringmatrix_cases(ctx):
     dna_bgs = [None, {"A": 0.125, "C": 0.375, "G": 0.375, "T": 0.125}, {"A": 0.0, "C": 0.5, "G": 0.25, "T": 0.25}]
     prot_bgs = [None, {"A": 0.5, "C": 0.25, "D": 0.125, "E": 0.125}]
     dna_keys = [("ACGT", None, "ok"), ("ACGT", "N", "ok"), ("TGCA", None, "ok"), ("AG", None, "ok"),
-                ("ACGTX", None, "unknown"), ("ACGU", None, "unknown"), ("", None, "raise")]
-    prot_keys = [(rm.PROTEIN[:20], None, "ok"), (rm.PROTEIN[:20], "X", "ok"), ("WY", None, "ok"), ("ACB", None, "unknown")]
+                ("ACGTX", None, "unknown"), ("ACGU", None, "unknown"), ("", None, "raise"),
+                ("CGT\u0141", None, "unknown"), ("ACG\u0154", None, "unknown")]
+    prot_keys = [(rm.PROTEIN[:20], None, "ok"), (rm.PROTEIN[:20], "X", "ok"), ("WY", None, "ok"), ("ACB", None, "unknown"), ("CD\u0141", None, "unknown")]
     for protein, keys, bgs in ((False, dna_keys, dna_bgs), (True, prot_keys, prot_bgs)):
         for ks, wild, expect in keys:
             for w in (1, 2, 7):
